@@ -98,7 +98,7 @@ func c03(c *core.Ctx) {
 			case call.Call.IsInvoke() && call.Call.Method.Name() == "ID":
 				recv = call.Call.Value
 			case call.Call.StaticCallee() != nil && call.Call.StaticCallee().Name() == "ID":
-				recv = call.Call.Args[0]
+				recv = rawArgs(call)[0]
 			default:
 				return false
 			}
